@@ -39,3 +39,93 @@ class DispatchLoop:
         self.header_switch = sws[0] if sws else None
         # the per-iteration registration token: result of forget_sub_id / or the token operand
         self.exits = set(b.return_blocks()) | {self.header}
+
+
+def dyn_targets(cs):
+    """local bodies a `dyn LocalTrait` method call may dispatch to"""
+    f = cs.body.facts
+    tr = cs.trait
+    if not tr or cs.callee_body() is not None:
+        return []
+    out = []
+    for b in f.bodies.values():
+        if b.impl_trait == tr and b.name == cs.name:
+            out.append(b)
+    return out
+
+
+def callee_bodies(cs):
+    cb = cs.callee_body()
+    if cb is not None:
+        return [cb]
+    st = cs.self_ty_desc()
+    if st is not None and cs.body.facts.types[cs.body.facts.peel_refs(cs.self_ty)].get("k") == "dyn":
+        return dyn_targets(cs)
+    return []
+
+
+def transitive_callers_of(facts, pred, through_dyn=True):
+    """set of body keys that (transitively through resolved local calls, and dyn calls to local
+    traits) contain a call satisfying pred"""
+    has = set()
+    for b in facts.bodies.values():
+        for cs in b.calls():
+            if not b.is_cleanup(cs.bb) and pred(cs):
+                has.add(b.key)
+                break
+    changed = True
+    while changed:
+        changed = False
+        for b in facts.bodies.values():
+            if b.key in has:
+                continue
+            for cs in b.calls():
+                if b.is_cleanup(cs.bb):
+                    continue
+                for cb in (callee_bodies(cs) if through_dyn else ([cs.callee_body()] if cs.callee_body() else [])):
+                    if cb.key in has:
+                        has.add(b.key)
+                        changed = True
+                        break
+                if b.key in has:
+                    break
+    return has
+
+
+WRAPPER_SKIP = ("Generic", "Timer", "TransientSource")
+
+
+def event_source_impls(facts):
+    """{self short type: {method name: body}} for every local impl of EventSource"""
+    out = {}
+    for b in facts.bodies.values():
+        if b.impl_trait and b.impl_trait.endswith("::EventSource") and b.kind == "AssocFn":
+            st = facts.short_ty(b.impl_self)
+            out.setdefault(st, {})[b.name] = b
+    return out
+
+
+def wrapper_forwarding(ck, clause, methods=("register", "reregister", "unregister")):
+    """T8: every wrapper source forwards m -> m of its inner source and calls no other
+    registration method; returns number of (impl, method) instances evaluated"""
+    f = ck.facts
+    impls = event_source_impls(f)
+    n = 0
+    for st, meths in sorted(impls.items()):
+        if st.split("<")[0] in WRAPPER_SKIP:
+            continue
+        for m in methods:
+            b = meths.get(m)
+            if b is None:
+                continue
+            inner = [cs for cs in T.calls(b, name=("register", "reregister", "unregister"), trait="EventSource")]
+            same = [cs for cs in inner if cs.name == m]
+            other = [cs for cs in inner if cs.name != m]
+            n += 1
+            ok = bool(same) and not other
+            # the receiver is a field of self / self's pointee
+            recv_ok = all(T.resolves_to_arg(b, cs.args[0], 1) for cs in same)
+            # every path to an Ok return goes through the forwarded call
+            bad = T.t2_all_exits(b, [0], [cs.bb for cs in same]) if same else [0]
+            ck.verdict(ok and recv_ok and bad is None, clause, "T8-sibling-agreement", b, "forwards:%s->%s" % (m, m), "the wrapper forwards %s to its inner source's %s on every path and calls no other registration method" % (m, m), "the wrapper's %s %s" % (m, ("calls %s of its inner source" % sorted({c.name for c in other})) if other else ("does not forward to the inner source's %s on every path" % m)), site=b.where())
+    return n
